@@ -1,5 +1,6 @@
 """C11 -- table theorems in coq/Props/C11.v re-checked against the tables regenerated from the tree,
 and the same statements evaluated directly on the real classes / schema files by introspection."""
+import dataclasses
 import json
 
 from harness import common as C
@@ -51,22 +52,32 @@ def structure_never_fails(rep):
         insts = [i for i in g.instances(version, action, "req" if mtype == "Call" else "resp") if not i[2] and isinstance(i[1], dict)]
         for (kind, inst, _) in insts[:5]:
             snake = GD.snake(inst)
-            try:
-                obj = (N.make_request if mtype == "Call" else N.make_result)(version, action, snake, False)
-            except Exception as e:  # noqa: BLE001
-                rep.violation("C11:unconstructible:%s:%s:%s" % (version, mtype, action),
-                              "a schema-valid %s %s (%s) cannot be built as its class: %s" % (action, mtype, kind, e),
-                              {"kind": "structure", "version": version, "mtype": mtype, "action": action, "instance": inst})
-                continue
-            wire = remove_nones(snake_to_camel_case(serialize_as_dict(obj)))
-            v = V.impl_verdict(version, mtype, action, wire)
-            rep.count("struct:%s:%s:%s:%s" % (version, mtype, action, kind))
-            if v[0] != "accept":
-                rep.violation("C11:structure:%s:%s:%s:%s" % (version, mtype, action, v[1]),
-                              "the %s object built from a schema-valid instance (%s) is written as %r and fails validation with %s" % (
-                                  action, kind, wire, v[1]),
-                              {"kind": "structure", "version": version, "mtype": mtype, "action": action, "instance": inst,
-                               "wire": wire, "verdict": v[:2]})
+            # nested values as plain dicts, as the data types the annotations name, and as the data types whose shape they
+            # have (the OCPP 1.6 classes annotate Dict / List; applications put the v16 data types there)
+            for mode in (False, True, "fit"):
+                try:
+                    obj = (N.make_request if mtype == "Call" else N.make_result)(version, action, snake, mode)
+                except Exception as e:  # noqa: BLE001
+                    rep.violation("C11:unconstructible:%s:%s:%s" % (version, mtype, action),
+                                  "a schema-valid %s %s (%s) cannot be built as its class: %s" % (action, mtype, kind, e),
+                                  {"kind": "structure", "version": version, "mtype": mtype, "action": action, "instance": inst, "nested": mode})
+                    break
+                if mode and not N.contains_dataclass([getattr(obj, f.name) for f in dataclasses.fields(obj)]):
+                    continue
+                try:
+                    wire = remove_nones(snake_to_camel_case(serialize_as_dict(obj)))
+                    json.dumps(wire)
+                    v = V.impl_verdict(version, mtype, action, wire)
+                except Exception as e:  # noqa: BLE001
+                    wire, v = None, ("crash", "%s: %s" % (type(e).__name__, str(e)[:160]))
+                rep.count("struct:%s:%s:%s:%s:%s" % (version, mtype, action, kind, mode))
+                if v[0] != "accept":
+                    rep.violation("C11:structure:%s:%s:%s:%s" % (version, mtype, action, v[1]),
+                                  "the %s object built from a schema-valid instance (%s; nested values as %s) is written as %r and fails "
+                                  "validation with %s" % (action, kind, {False: "dicts", True: "annotated data types", "fit": "data types by shape"}[mode],
+                                                          wire, v[1]),
+                                  {"kind": "structure", "version": version, "mtype": mtype, "action": action, "instance": inst,
+                                   "nested": mode, "wire": wire, "verdict": v[:2]})
 
 
 def materialise_through_call(rep):
@@ -196,6 +207,21 @@ def replay(d):
             print("call() ->", out[:3], "class", type(out[3]).__module__ + "." + type(out[3]).__name__ if out[0] == "result" else None)
         print("HOLDS" if ok else "FAILS")
         return 0 if ok else 1
+    if d.get("kind") == "structure":
+        from ocpp.charge_point import remove_nones, serialize_as_dict, snake_to_camel_case
+        from harness import gen_dispatch as GD
+        from harness import impl_net as N
+        from harness import verdict as V
+        try:
+            obj = (N.make_request if d["mtype"] == "Call" else N.make_result)(d["version"], d["action"], GD.snake(d["instance"]), d.get("nested", False))
+            wire = remove_nones(snake_to_camel_case(serialize_as_dict(obj)))
+            json.dumps(wire)
+            v = V.impl_verdict(d["version"], d["mtype"], d["action"], wire)
+        except Exception as e:  # noqa: BLE001
+            v = ("crash", repr(e))
+        print("verdict on the object's wire form:", v[:2])
+        print("HOLDS" if v[0] == "accept" else "FAILS")
+        return 0 if v[0] == "accept" else 1
     found, _ = items(None)
     it = tuple(d.get("item", []))
     hit = [p for (ver, p) in found if tuple(map(str, p)) == tuple(map(str, it)) and ver == d.get("version")]
